@@ -376,6 +376,19 @@ fn history_inputs(t: &mut Tape, cfg: &crate::cfggen::CfgInfo) -> Vec<(String, St
         pool.push((format!("function f(a, b) {{ return __datadog_{prefix}_7 + a() + b() + a.trim(b(), a()); }}\n"), format!("/app/src/clashref_{}.js", prefix.len())));
         pool.push((format!("function f(a, b) {{ const k = a() + b() + `${{a()}}${{b()}}`; {{ label: {{ k.trim(__datadog_{prefix}_1); }} }} return k; }}\n"), format!("/app/src/clashnested_{}.js", prefix.len())));
     }
+    // two reference comments attached to different tokens (different maps): which one is used must not depend on the call
+    {
+        let m1 = r#"{"version":3,"sources":["first.ts"],"names":[],"mappings":"AAAA;AACA;AACA"}"#;
+        let m2 = r#"{"version":3,"sources":["second.ts"],"names":[],"mappings":"AAEA;AACA;AACA"}"#;
+        pool.push((
+            format!(
+                "function f(a, b) {{ return a + b; }} //# sourceMappingURL=data:application/json;base64,{}\nvar k = 1;\n//# sourceMappingURL=data:application/json;base64,{}\n",
+                smap::encode_base64(m1.as_bytes()),
+                smap::encode_base64(m2.as_bytes())
+            ),
+            "/app/src/tworefs.js".to_string(),
+        ));
+    }
     // one literal value at a dozen places (the literals report is a set: nothing about it may depend on the call)
     pool.push((format!("function f(a) {{ return [{}].concat(a + a); }}\n", vec!["'content-type-header'"; 12].join(", ")), "/app/src/dozen.js".to_string()));
     // needs no temporary at all / exactly one: anything left over from an earlier call shows
